@@ -9,7 +9,7 @@
     the end of an orphan chain: refuted with the witness of known finding
     C07:orphan-chain-invalid-tail-blocks-reorg. *)
 From Coq Require Import NArith List Bool.
-From Verif Require Import ChainDB.Model ChainDB.Inv ChainDB.Reorg ChainDB.AddBlock ChainDB.Fork ChainDB.Trace ChainDB.RefuteFork.
+From Verif Require Import ChainDB.Model ChainDB.Inv ChainDB.Reorg ChainDB.AddBlock ChainDB.Fork ChainDB.Trace ChainDB.Longest ChainDB.RefuteFork.
 Import ListNotations.
 Open Scope N_scope.
 
@@ -147,3 +147,41 @@ Theorem C07_returned_txs :
     forall t, In t (puts_of new) <-> (confirmed n t /\ ~ confirmed n' t).
 Proof. intros; eapply returned_txs; eauto. Qed.
 Print Assumptions C07_returned_txs.
+
+(** best_is_longest_available as an INVARIANT over arrival histories.  [good_history]: the LIB
+    stream is monotone, every arriving block is in U (and not numbered 0 unless F27 is applied), and
+    - the hypothesis excluding the known finding - an arrival that pulls parked orphans in does not
+    end in an error (i.e. every orphan-resolution run ends in a valid block and completes its
+    reorganisation).  Then after every arrival every fully stored, parent-linked, consecutively
+    numbered, executable branch forking from the main chain at or above the LIB has its tip at or
+    below the best block's height (ties keep the incumbent by C07_no_displace_equal_or_shorter). *)
+Theorem C07_best_is_longest_available_invariant :
+  forall (apply : sroot -> block -> option sroot) (orphan_cap : nat) (f27 : bool) (spent : sroot -> txid -> bool),
+  (forall r b r', apply r b = Some r' -> NoDup (txs b) /\ forall t, In t (txs b) -> spent r t = false) ->
+  (forall r b r' t, apply r b = Some r' -> spent r' t = spent r t || mem t (txs b)) ->
+  forall (U : block -> Prop), (forall a b, U a -> U b -> hash_field a = hash_field b -> a = b) ->
+  forall (g : block) (l : list (N * block)),
+  U g -> no g = 0 -> txs g = [] ->
+  good_history apply orphan_cap f27 U (init_node g) l ->
+  let n' := history apply true f27 orphan_cap (init_node g) l in
+  Inv apply spent U g n' /\ Longest apply n'.
+Proof.
+  intros apply cap f27 spent Hf Hs U Hu g l Ug Hg Htx Hgood n'.
+  destruct (longest_init apply g Hg Htx) as (S0 & L0).
+  destruct (longest_history apply cap f27 spent Hf Hs U Hu g l (init_node g)
+              (inv_init apply spent U g Ug Hg Htx) S0 L0 Hg Hgood) as (A & _ & C). auto.
+Qed.
+Print Assumptions C07_best_is_longest_available_invariant.
+
+(** The step version for an arbitrary consistent state. *)
+Theorem C07_longest_step :
+  forall (apply : sroot -> block -> option sroot) (orphan_cap : nat) (f27 : bool) (spent : sroot -> txid -> bool),
+  (forall r b r', apply r b = Some r' -> NoDup (txs b) /\ forall t, In t (txs b) -> spent r t = false) ->
+  (forall r b r' t, apply r b = Some r' -> spent r' t = spent r t || mem t (txs b)) ->
+  forall (U : block -> Prop), (forall a b, U a -> U b -> hash_field a = hash_field b -> a = b) ->
+  forall (g : block) n b,
+  Inv apply spent U g n -> Struct g n -> Longest apply n -> no g = 0 -> U b -> (f27 = true \/ no b <> 0) ->
+  (snd (add_block apply true f27 orphan_cap n b) = RErr -> find_orphan (orphans n) (hash_field b) = None) ->
+  Struct g (fst (add_block apply true f27 orphan_cap n b)) /\ Longest apply (fst (add_block apply true f27 orphan_cap n b)).
+Proof. intros; eapply longest_step; eauto. Qed.
+Print Assumptions C07_longest_step.
